@@ -1,0 +1,105 @@
+//go:build verif
+
+// Contracts for the verification engine in /verif (comment-only file; declares nothing).
+// Syntax: DESIGN.md section 3.3. Field-level vocabulary (fv, wf, fadd, ...) is defined in
+// internal/field/contracts_verif.go, scalar-level vocabulary in internal/scalar/contracts_verif.go.
+
+package secp256k1
+
+// ---- the abstract group: G = E(F_p), y^2 = x^3 + 7, with neutral element gzero() ----
+//@ declare ptf(F, F, F) G
+//@ declare valid(F, F, F) Bool
+//@ declare gadd(G, G) G
+//@ declare gneg(G) G
+//@ declare gzero() G
+//@ declare smul(Int, G) G
+//@ declare aff(F, F) G
+
+//@ define wf3(e) = wf(e.x) && wf(e.y) && wf(e.z)
+//@ define pt(e) = ptf(fv(e.x), fv(e.y), fv(e.z))
+//@ define inv(e) = wf3(e) && valid(fv(e.x), fv(e.y), fv(e.z))
+
+// Renes-Costello-Batina Algorithm 7 (a = 0, b3 = 21) as closed polynomials
+//@ define rcbX(X1, Y1, Z1, X2, Y2, Z2) = (X1*Y2 + X2*Y1)*(Y1*Y2 - F(21)*Z1*Z2) - F(21)*(Y1*Z2 + Y2*Z1)*(X1*Z2 + X2*Z1)
+//@ define rcbY(X1, Y1, Z1, X2, Y2, Z2) = (Y1*Y2 + F(21)*Z1*Z2)*(Y1*Y2 - F(21)*Z1*Z2) + F(63)*X1*X2*(X1*Z2 + X2*Z1)
+//@ define rcbZ(X1, Y1, Z1, X2, Y2, Z2) = (Y1*Z2 + Y2*Z1)*(Y1*Y2 + F(21)*Z1*Z2) + F(3)*X1*X2*(X1*Y2 + X2*Y1)
+// Algorithm 9 (doubling)
+//@ define dblX(X, Y, Z) = F(2)*X*Y*(Y*Y - F(63)*Z*Z)
+//@ define dblY(X, Y, Z) = (Y*Y - F(63)*Z*Z)*(Y*Y + F(21)*Z*Z) + F(168)*Y*Y*Z*Z
+//@ define dblZ(X, Y, Z) = F(8)*Y*Y*Y*Z
+
+//@ lemma rcb_add(X1, Y1, Z1, X2, Y2, Z2) {lean: Secp.rcb_add}: imp(valid(X1, Y1, Z1) && valid(X2, Y2, Z2), valid(rcbX(X1, Y1, Z1, X2, Y2, Z2), rcbY(X1, Y1, Z1, X2, Y2, Z2), rcbZ(X1, Y1, Z1, X2, Y2, Z2)) && ptf(rcbX(X1, Y1, Z1, X2, Y2, Z2), rcbY(X1, Y1, Z1, X2, Y2, Z2), rcbZ(X1, Y1, Z1, X2, Y2, Z2)) == gadd(ptf(X1, Y1, Z1), ptf(X2, Y2, Z2)))
+//@ lemma rcb_dbl(X, Y, Z) {lean: Secp.rcb_dbl}: imp(valid(X, Y, Z), valid(dblX(X, Y, Z), dblY(X, Y, Z), dblZ(X, Y, Z)) && ptf(dblX(X, Y, Z), dblY(X, Y, Z), dblZ(X, Y, Z)) == gadd(ptf(X, Y, Z), ptf(X, Y, Z)))
+//@ lemma pt_neg(X, Y, Z) {lean: Secp.pt_neg}: imp(valid(X, Y, Z), valid(X, fneg(Y), Z) && ptf(X, fneg(Y), Z) == gneg(ptf(X, Y, Z)))
+//@ lemma pt_identity_iff(X, Y, Z) {lean: Secp.pt_identity_iff}: imp(valid(X, Y, Z), (ptf(X, Y, Z) == gzero()) == (Z == F(0)))
+//@ lemma pt_eq_iff(X1, Y1, Z1, X2, Y2, Z2) {lean: Secp.pt_eq_iff}: imp(valid(X1, Y1, Z1) && valid(X2, Y2, Z2), (ptf(X1, Y1, Z1) == ptf(X2, Y2, Z2)) == (X1*Z2 == X2*Z1 && Y1*Z2 == Y2*Z1))
+//@ lemma gneg_zero() {lean: neg_zero}: gneg(gzero()) == gzero()
+//@ lemma valid_identity() {lean: Secp.valid_identity}: valid(F(0), F(1), F(0)) && ptf(F(0), F(1), F(0)) == gzero()
+
+//@ func Element.addProjectiveComplete
+//@   mode ring
+//@   requires wf3(u) && wf3(v)
+//@   ensures wf: wf3(e)
+//@   ensures x [C02]: fv(e.x) == rcbX(old(fv(u.x)), old(fv(u.y)), old(fv(u.z)), old(fv(v.x)), old(fv(v.y)), old(fv(v.z)))
+//@   ensures y [C02]: fv(e.y) == rcbY(old(fv(u.x)), old(fv(u.y)), old(fv(u.z)), old(fv(v.x)), old(fv(v.y)), old(fv(v.z)))
+//@   ensures z [C02]: fv(e.z) == rcbZ(old(fv(u.x)), old(fv(u.y)), old(fv(u.z)), old(fv(v.x)), old(fv(v.y)), old(fv(v.z)))
+//@   modifies *e
+//@   returns e
+
+//@ func Element.doubleProjectiveComplete
+//@   mode ring
+//@   requires wf3(u)
+//@   ensures wf: wf3(e)
+//@   ensures x [C02]: fv(e.x) == dblX(old(fv(u.x)), old(fv(u.y)), old(fv(u.z)))
+//@   ensures y [C02]: fv(e.y) == dblY(old(fv(u.x)), old(fv(u.y)), old(fv(u.z)))
+//@   ensures z [C02]: fv(e.z) == dblZ(old(fv(u.x)), old(fv(u.y)), old(fv(u.z)))
+//@   modifies *e
+//@   returns e
+
+//@ func Element.add
+//@   mode int
+//@   nilable element
+//@   requires inv(e) && (isnil(element) || inv(element))
+//@   ensures sum [C02,C10]: imp(!isnil(element), inv(e) && pt(e) == gadd(old(pt(e)), old(pt(element)))) by rcb_add(old(fv(e.x)), old(fv(e.y)), old(fv(e.z)), old(fv(element.x)), old(fv(element.y)), old(fv(element.z)))
+//@   ensures nil [C02]: imp(isnil(element), unchanged(e))
+//@   modifies *e
+//@   returns e
+
+//@ func Element.Double
+//@   mode int
+//@   requires inv(e)
+//@   ensures dbl [C02,C10]: inv(e) && pt(e) == gadd(old(pt(e)), old(pt(e))) by rcb_dbl(old(fv(e.x)), old(fv(e.y)), old(fv(e.z)))
+//@   modifies *e
+//@   returns e
+
+//@ func Element.IsIdentity
+//@   mode int
+//@   requires inv(e)
+//@   ensures id [C05,C10]: result == (pt(e) == gzero()) by pt_identity_iff(fv(e.x), fv(e.y), fv(e.z))
+
+//@ func Element.Negate
+//@   mode int
+//@   requires inv(e)
+//@   ensures neg [C02,C10]: inv(e) && pt(e) == gneg(old(pt(e))) by pt_neg(old(fv(e.x)), old(fv(e.y)), old(fv(e.z))), gneg_zero()
+//@   modifies *e
+//@   returns e
+
+//@ func Element.Subtract
+//@   mode int
+//@   nilable element
+//@   requires inv(e) && (isnil(element) || inv(element))
+//@   uses pt_neg(fv(element.x), fv(element.y), fv(element.z))
+//@   ensures diff [C02,C10]: imp(!isnil(element), inv(e) && pt(e) == gadd(old(pt(e)), gneg(old(pt(element)))))
+//@   ensures nil [C02]: imp(isnil(element), unchanged(e))
+//@   modifies *e
+//@   returns e
+
+//@ func Element.isEqual
+//@   mode int
+//@   requires wf3(e) && wf3(u)
+//@   ensures cross [C05]: result == ite(fv(e.x)*fv(u.z) == fv(u.x)*fv(e.z) && fv(e.y)*fv(u.z) == fv(u.y)*fv(e.z), 1, 0)
+
+//@ func Element.Equal
+//@   mode int
+//@   requires inv(e) && inv(element)
+//@   ensures eq [C05,C10]: result == ite(pt(e) == pt(element), 1, 0) by pt_eq_iff(fv(e.x), fv(e.y), fv(e.z), fv(element.x), fv(element.y), fv(element.z))
